@@ -29,7 +29,11 @@ TECH = {
 }
 NOTE = ('Held-on-observed only: the monitors decide the executions the workload produced. Trusted base: CPython, '
         'the harness in /verif/rv (shadow model, independent readers) and the public accessors of bitsets/graphviz '
-        'through which results are decoded.')
+        'through which results are decoded. Workloads common to the lattice-family checks (DESIGN 1.3/1.6): contexts that '
+        'came through 16 persistence routes, CRC-32 / hash twins, user subclasses, edits of returned containers, re-entrant '
+        'argument collections, generators closed or thrown into, read-only queries cut short by injected exceptions or made '
+        'with little stack left (fault injection; the aborted call is never judged, everything after it is), shards under '
+        '-O and under library-warnings-as-errors / -bb / -X dev. Concurrency is outside the properties (no schedules).')
 
 def main():
     props = [json.loads(l) for l in open(os.path.join(ROOT, 'properties.jsonl'))]
